@@ -68,7 +68,7 @@ impl Module for M {
         let widths: Vec<u32> = if quick { vec![0, 1, 2, 3, 5, 9] } else { vec![0, 1, 2, 3, 4, 5, 6, 8, 11, 17] };
         let shapes = shape_grid(max_size, grid, &angles);
         let styles = style_grid(&widths);
-        let nrand = if quick { 1500 } else { 60_000 };
+        let nrand = if quick { 5000 } else { 60_000 };
         match pid {
             "C01" => {
                 for (i, sh) in shapes.iter().enumerate() {
